@@ -129,8 +129,8 @@ type pageScript struct {
 	// if the prefetched page is on its way (its answer withheld by the node), the consumer
 	// walks into the page end while the prefetch is still in flight, and the answer is
 	// released by a helper goroutine of the bubble once the consumer is inside the driver
-	race map[int]bool
-	cumEnd   []int        // cumEnd[p] = rows in pages 0..p
+	race   map[int]bool
+	cumEnd []int // cumEnd[p] = rows in pages 0..p
 
 	// re-execution of the kept *gocql.Query value (non-manual queries only)
 	reexec bool
